@@ -379,6 +379,10 @@ def is_ipv6_text(s):
 
 
 def _lib_ipv6(s):
+    if "%" in s:
+        # the library also reads scoped literals ('fe80::1%eth0'); a zone index is not part of an
+        # IPv6 address, and neither inet_pton nor RFC 4291 knows it
+        return False
     try:
         ipaddress.IPv6Address(s)
         return True
